@@ -150,20 +150,21 @@ def _field_instance(init, pre_removed):
 
 def writer_sequence(db):
     """ordered [(prim, width, source)] of RawLexiconEntry::write_word_info"""
-    f = db.one("write_word_info", "RawLexiconEntry")
+    from .db import deref_all
+    f = db.view(db.one("write_word_info", "RawLexiconEntry"))
     seq = []
     for n, ps in walk(f.hir):
         if n.get("k") == "MethodCall":
             m = n["method"]
             c = callee(n) or ""
             if m == "write" and "Utf16Writer" in c:
-                seq.append(("STR16", None, render(n["args"][1]) if len(n["args"]) > 1 else "?", "write"))
+                seq.append(("STR16", None, render(n["args"][1], x=True) if len(n["args"]) > 1 else "?", "write"))
             elif m == "write_empty_if_equal" and "Utf16Writer" in c:
-                seq.append(("STR16", None, render(n["args"][1]), "write_empty_if_equal", render(n["args"][2])))
+                seq.append(("STR16", None, render(n["args"][1], x=True), "write_empty_if_equal", render(n["args"][2], x=True)))
             elif m == "write_len" and "Utf16Writer" in c:
-                seq.append(("LEN", None, render(n["args"][1]), "write_len"))
+                seq.append(("LEN", None, render(n["args"][1], x=True), "write_len"))
             elif m == "write_all" and n["args"]:
-                a = peel(n["args"][0])
+                a = deref_all(n["args"][0])      # also through a `write_raw(w, bytes)` style helper (inlined view) or a hoisted let
                 if a.get("k") == "MethodCall" and a.get("method") == "to_le_bytes":
                     ty = a["recv"].get("ty") or ""
                     ty = ty.lstrip("&")
